@@ -140,7 +140,7 @@ T("C10", "parity-xor-spelling", F_FLATB, "                flip_state if not sub_
 B("C11", "importer-drops-spicetype", F_IMPORT, "            spicetype=SpiceType.from_schema(pmod.spicetype),\n", "", "C11.2")
 B("C11", "prefix-milli-micro", F_IMPORT, "vlsir.SIPrefix.MILLI: Prefix.MILLI,", "vlsir.SIPrefix.MILLI: Prefix.MICRO,", "C11.1")
 B("C11", "port-dir-swapped", F_IMPORT, "    if pport.direction == vckt.Port.Direction.INPUT:\n        return PortDir.INPUT", "    if pport.direction == vckt.Port.Direction.INPUT:\n        return PortDir.OUTPUT", "C11.1")
-B("C11", "pulse-rise-fall", F_IMPORT, "            rise=params[\"tr\"],\n            fall=params[\"tf\"],", "            rise=params[\"tf\"],\n            fall=params[\"tr\"],", "C11.1")
+B("C11", "pulse-rise-fall", F_IMPORT, "            rise=params.get(\"tr\", None),\n            fall=params.get(\"tf\", None),", "            rise=params.get(\"tf\", None),\n            fall=params.get(\"tr\", None),", "C11.1")
 B("C11", "literals-dropped", F_IMPORT, "        for plit in pmod.literals:\n            module.literals.append(Literal(text=plit))\n", "", "C11.2")
 B("C11", "prefixed-string-arm-missing", F_IMPORT, "    elif ptype == \"string_value\":\n        number = vpref.string_value\n", "", "C11.3")
 
@@ -213,6 +213,11 @@ B("C18", "bundle-never-frozen", F_BASE, "            bundle_def._elaborated = Tr
 B("C18", "parent-link-conditional", F_MODULE, "    val._parent_module = module\n\n    # And return our newly-added attribute", "    if isinstance(val, Signal):\n        val._parent_module = module\n\n    # And return our newly-added attribute", "C18.4")
 
 B("C08", "handler-hashes-uncached-call", F_GENERATOR, "        if call.gen.enable_cache:\n            # Only cached calls are tracked (and hashed): an un-cached call may have un-hashable parameters.\n            the_cache.pending.discard(call)\n        raise", "        the_cache.pending.discard(call)\n        raise", "C08.1")
+
+B("C08", "generated-by-set-before-naming", F_GENERATOR, "        handed_on = m._generated_by is not None\n", "        handed_on = m._generated_by is not None\n        m._generated_by = call\n", "C08.2")
+B("C11", "vpulse-params-required", F_IMPORT, "            v1=params.get(\"v1\", None),", "            v1=params[\"v1\"],", "C11.2")
+B("C11", "unlisted-gets-default", F_IMPORT, "                params = target.Params(**unset_params(target, literal_params(target, params)))", "                params = target.Params(**literal_params(target, params))", "C11.2")
+B("C11", "literal-imported-as-string", F_IMPORT, "                params = target.Params(**unset_params(target, literal_params(target, params)))", "                params = target.Params(**unset_params(target, params))", "C11.2")
 
 # ------------------------------------------------------------------ C19
 B("C19", "series-net-too-wide", F_GENERATORS, "i = m.add(h.Signal(name=\"i\", width=params.nser - 1))", "i = m.add(h.Signal(name=\"i\", width=params.nser))", "C19.1")
